@@ -124,4 +124,21 @@ theorem notifyRefs_spec (rs added removed : List Nat) (h : List MoveObj) (hn : r
         simp
       · simp [List.mem_cons, hra]
 
+theorem nodup_eraseDups : ∀ (n : Nat) (l : List Nat), l.length ≤ n → l.eraseDups.Nodup
+  | 0, l, h => by
+    have : l = [] := List.eq_nil_of_length_eq_zero (by omega)
+    subst this; simp
+  | n+1, [], _ => by simp
+  | n+1, a :: as, h => by
+    rw [List.eraseDups_cons]
+    have hlen : (as.filter fun b => !b == a).length ≤ n := by
+      have := List.length_filter_le (fun b => !b == a) as
+      simp at h; omega
+    refine List.nodup_cons.mpr ⟨?_, nodup_eraseDups n _ hlen⟩
+    intro hm
+    have := List.mem_eraseDups.mp hm
+    simp at this
+
+theorem nodup_eraseDups' (l : List Nat) : l.eraseDups.Nodup := nodup_eraseDups l.length l (Nat.le_refl _)
+
 end MM
